@@ -22,6 +22,7 @@ pub mod net;
 pub mod rec;
 pub mod run;
 pub mod scenario;
+pub mod tptls;
 pub mod wire;
 
 use vcore::Property;
